@@ -2,7 +2,7 @@
 # Replay for suspected defect c12_off_by_one (echsd.c task_cb()/run_task():
 # X-ECHS-MAX-SIMUL:N does not limit the number of concurrent runs).
 #
-# Usage: ./run.sh            (needs root: uses unshare -m -n for isolation)
+# Usage: ./run.sh            (needs root: uses unshare -m -n -p for isolation)
 #
 # The unmodified echsd binary is copied next to a FAKE `echsx' (echsd looks
 # for its executor as dirname(/proc/self/exe)/echsx).  The fake executor logs
@@ -48,7 +48,7 @@ EOX
 	rc=0
 	for N in 1 2 3; do
 		mkdir -p "$T/spool$N"
-		timeout 40 unshare -m -n "$0" --inner "$T" $N || rc=1
+		timeout 40 unshare -m -n -p -f --kill-child --mount-proc "$0" --inner "$T" $N || rc=1
 	done
 	echo
 	echo "================ summary ================"
